@@ -170,7 +170,7 @@ class Recorder:
         return h
 
     def watch(self, d, h):
-        """record every firing of d on handle h, at the moment it happens, without consuming the result"""
+        """record every firing of an already created Deferred (maybeDeferred's) without consuming the result"""
         fl = self.fires[h]
 
         def cb(r):
@@ -182,6 +182,20 @@ class Recorder:
             return f
         d.addCallbacks(cb, eb)
 
+    def watch_attempts(self, d, h):
+        """record every *invocation* of d.callback / d.errback (a second one would raise AlreadyCalledError inside
+        Twisted and would otherwise be invisible), at the moment it happens"""
+        fl = self.fires[h]
+        o_cb, o_eb = d.callback, d.errback
+
+        def callback(res):
+            fl.append(O_RESULT)
+            return o_cb(res)
+
+        def errback(f=None):
+            fl.append(classify(f) if f is not None else O_OTHER)
+            return o_eb(f)
+        d.callback, d.errback = callback, errback
 
 
 def classify(f):
@@ -208,7 +222,7 @@ def recording(A):
                 return
             rec.handle[id(self)] = rec.window
             rec.keep.append(self)
-            rec.watch(self.deferred, rec.window)
+            rec.watch_attempts(self.deferred, rec.window)
             if reqID == 0:
                 self.deferred.addErrback(lambda f: None)
 
@@ -486,6 +500,21 @@ def scenario(calls, cutA, cutB, chunkA=7, chunkB=7, loss="lost", stall_release="
                 errors=rec.errors, evq=list(rec.evq), raised=rec.raised, marksA=list(tA.marks), marksB=list(tB.marks))
 
 
+RETURNS = ("ok", "big", "typed_ok", "mixed_dict")
+
+
+def judge_full(calls, r):
+    """a run in which everything was delivered before the connection ended: calls whose method simply returns must have
+    fired with the result (not with DeadReferenceError at the end)"""
+    if "stall" in calls:
+        return None
+    for h, k in enumerate(calls):
+        if k in RETURNS and r["fires"][h] != [O_RESULT]:
+            return "result-not-delivered", "call #%d (%s) fired %r although its answer was fully delivered" % (
+                h, k, [ONAME.get(c, c) for c in r["fires"][h]])
+    return None
+
+
 def judge(r):
     """the property, on what the real code did: -> None or (signature suffix, text)"""
     for h, (tw, f) in enumerate(zip(r["twoway"], r["fires"])):
@@ -538,7 +567,7 @@ def api_sequence(ops):
                             req.fail(failure.Failure(ValueError("remote")))
                         else:
                             req.fail(failure.Failure(Violation("in inbound method results")))
-                    except KeyError:
+                    except Exception:       # the real callers are Deferred chains / the eventual queue: they log it
                         pass
             elif op[0] in ("Complete", "Fail"):
                 h = op[1]
@@ -558,7 +587,7 @@ def api_sequence(ops):
                         exc = {O_DEAD: DeadReferenceError("late"), O_SEND: Violation("cannot serialize")}.get(
                             op[2], RuntimeError("late failure"))
                         reqs[0].fail(failure.Failure(exc))
-                except KeyError:
+                except Exception:
                     pass
             elif op[0] == "Finish":
                 why = failure.Failure(ConnectionDone()) if op[1] == O_DEAD else failure.Failure(RuntimeError("shutdown"))
